@@ -228,6 +228,15 @@ P("C19", namespaces=["C19"], level_text="Theorems for every geometry with poolCa
                        S.LimitSuite(cfg=G["id1c10"]), S.LimitSuite(cfg=G["tiny1"]), S.LimitSuite(cfg=G["id1i3"])] +
   ([S.HistSuite(cfg=G[g], nh=1500) for g in ("tiny2", "len4", "id1")] if tier == "thorough" else []))
 
+P("C20", level_text="Theorems: (1) the inventory of every object with static storage duration defined by ArduinoJson code — regenerated on every run from the object code of a "
+  "translation unit that instantiates the public API — contains only read-only objects and two justified allow-listed ones (the stateless default allocator, the table of error strings); "
+  "(2) for any step function without hidden state, every interleaving of per-thread operation lists over distinct documents gives each thread exactly the result of its sequential run. "
+  "A function-level static buffer or cache introduced by a change appears in the regenerated inventory and breaks (1). The thread harness runs 8 threads on distinct documents with a "
+  "shared const document (copy source, JsonVariantConst filter) and the shared default allocator, sequentially and concurrently, and compares every step (under TSan in the thorough tier).",
+  level_note="data races on memory the model does not describe and the thread safety of malloc are observed (TSan), not proved; the inventory covers the API instantiated by the harness translation unit",
+  suites=lambda tier: [S.ThreadSuite(cfg=DEF)],
+  partial=["races on the binary are observed, not proved"])
+
 for pid in list(PROPS):
     if not PROPS[pid]["theorems"]:
         # nothing proved yet for this property: it is not claimed
